@@ -330,6 +330,28 @@ impl<'e, 'd> World<'e, 'd> {
         }
     }
 
+    /// Whether the (damaged) source gives an advance for the glyph each output glyph stems from
+    /// (`ids[k]` for subsets, glyph k itself for instances and whole-font copies).
+    fn source_advance(&mut self, ids: Option<&[u16]>) -> Option<Vec<bool>> {
+        if !self.want_source_ok {
+            return None;
+        }
+        let provider = self.env.provider().ok()?;
+        let mut font = Font::new(provider).ok()?;
+        let all: Vec<u16>;
+        let ids = match ids {
+            Some(ids) => ids,
+            None => {
+                all = (0..font.num_glyphs().min(3000)).collect();
+                &all
+            }
+        };
+        if ids.len() > 3000 {
+            return None;
+        }
+        Some(ids.iter().map(|g| font.horizontal_advance(*g).is_some()).collect())
+    }
+
     /// Which of `ids` have a source outline that can be visited (fresh outline table).
     fn source_ok(&mut self, ids: &[u16]) -> Option<Vec<bool>> {
         if !self.want_source_ok || ids.len() > 3000 {
@@ -799,11 +821,13 @@ impl<'e, 'd> World<'e, 'd> {
                 match subset::subset(&provider, ids) {
                     Ok(bytes) => {
                         let source_ok = self.source_ok(ids);
+                        let source_advance = self.source_advance(Some(ids));
                         extra.written = Some(Written {
                             bytes: bytes.clone(),
                             kind: WrittenKind::Sfnt,
                             glyphs: Some(ids.len()),
                             source_ok,
+                            source_advance,
                         });
                         OpOut::ok(bytes_digest(&bytes))
                     }
@@ -837,8 +861,10 @@ impl<'e, 'd> World<'e, 'd> {
                         } else {
                             self.source_ok(ids)
                         };
+                        let source_advance = self.source_advance(Some(ids));
                         extra.written = Some(Written {
                             source_ok,
+                            source_advance,
                             bytes: bytes.clone(),
                             kind: if bare_cff {
                                 WrittenKind::BareCff
@@ -862,7 +888,9 @@ impl<'e, 'd> World<'e, 'd> {
                 let tags: Vec<u32> = tags.iter().map(|t| tag_from_str(t)).collect();
                 match subset::whole_font(&provider, &tags) {
                     Ok(bytes) => {
+                        let source_advance = self.source_advance(None);
                         extra.written = Some(Written {
+                            source_advance,
                             bytes: bytes.clone(),
                             kind: WrittenKind::Whole,
                             glyphs: None,
@@ -881,7 +909,9 @@ impl<'e, 'd> World<'e, 'd> {
                 let coords: Vec<Fixed> = coords.iter().map(|&c| Fixed::from_raw(c)).collect();
                 match variations::instance(&provider, &coords) {
                     Ok((bytes, tuple)) => {
+                        let source_advance = self.source_advance(None);
                         extra.written = Some(Written {
+                            source_advance,
                             bytes: bytes.clone(),
                             kind: WrittenKind::Instance,
                             glyphs: None,
@@ -1054,6 +1084,8 @@ pub struct Written {
     /// For subsets of a damaged source: whether the source outline of `ids[k]` could be
     /// visited. A retained glyph that was readable in the source must be readable in the output.
     pub source_ok: Option<Vec<bool>>,
+    /// Likewise for `Font::horizontal_advance` of the source glyph that output glyph k stems from.
+    pub source_advance: Option<Vec<bool>>,
 }
 
 /// C02: attachments refer to glyphs inside the run.
